@@ -1551,6 +1551,13 @@ var shapeTargets = []shapeTarget{
 	{"cmd/thruserv", "handleWebSocket", "", "args:hub.Broadcast", "handler_bcast_args"},
 	{"cmd/thruserv", "handleWebSocket", "", "args:store.GetByJoinCode", "handler_lookup_args"},
 	{"internal/ice", "ProbeAndDial", "Prober", "if-cond-has:claimed", "probe_claim"},
+	// what the clients keep of a turn_credentials envelope: the issued list itself
+	{"internal/app", "handleEnvelope", "SnapshotSender", "args:s.setTurnServersIfEmpty", "sender_turn_intake_args"},
+	{"internal/app", "handleEnvelope", "snapshotReceiver", "args:r.setTurnServersIfEmpty", "receiver_turn_intake_args"},
+	{"internal/app", "setTurnServersIfEmpty", "SnapshotSender", "assign:s.turnServers", "sender_turn_keep"},
+	{"internal/app", "setTurnServersIfEmpty", "snapshotReceiver", "assign:r.turnServers", "receiver_turn_keep"},
+	{"internal/app", "setTurnServersIfEmpty", "SnapshotSender", "assign:servers", "sender_turn_rewrite"},
+	{"internal/app", "setTurnServersIfEmpty", "snapshotReceiver", "assign:servers", "receiver_turn_rewrite"},
 	// whole decision structure (every `if` condition in source order, enclosing conditions first) of small functions that
 	// hand-written models transcribe line by line
 	{"internal/transfer", "nextChunkToSend", "sendFileState", "if-all", "sendfile_next_chunk"},
